@@ -45,18 +45,21 @@ unsigned vg_n;
 #define LZS_OB_POST_EARLIER (vg_E < VG_L0 ==> vg_out[vg_E] == VG_O0(vg_E))
 #define LZS_OB_POST_LOG     (vg_n == VG_N0 + 1 && vg_log[VG_N0].kind == VG_LIT && vg_log[VG_N0].a == b)
 
-/* output_block(decoder, buf, buf_len, start, len): LZ77 copy from ABSOLUTE ring position start */
+/* output_block(decoder, buf, buf_len, start, len): LZ77 copy from ABSOLUTE ring position start.
+   The *_ forms take the operands explicitly so that dispatchers can state the effect of the command
+   that the FORMAT assigns to the consumed bits; the parameterless forms are the leaf's own contract. */
 #define LZS_BLK_PRE          (vg_dec.ringbuf_pos < RING_BUFFER_SIZE && *buf_len <= OUTPUT_BUFFER_SIZE && len <= OUTPUT_BUFFER_SIZE - *buf_len)
 #define LZS_BLK_POST_LEN     (*buf_len == VG_L0 + len)
 #define LZS_BLK_POST_POS     (vg_dec.ringbuf_pos == (VG_P0 + len) % RING_BUFFER_SIZE)
-/* byte K of the block comes from ring position start+K, which holds an earlier byte of this same block iff
+/* byte K of the block comes from ring position START+K, which holds an earlier byte of this same block iff
    the write position reached that cell first (self-overlap), else the ring content from before the call */
-#define LZS_BLK_POST_BYTE    (vg_K < len ==> vg_out[VG_L0 + vg_K] == \
-    (VG_WRITER(start + vg_K, VG_P0) < vg_K ? vg_out[VG_L0 + VG_WRITER(start + vg_K, VG_P0)] \
-                                           : VG_R0((start + vg_K) % RING_BUFFER_SIZE)))
+#define LZS_BLK_POST_BYTE_(START, LEN, L0, P0)  (vg_K < (LEN) ==> vg_out[(L0) + vg_K] == \
+    (VG_WRITER((START) + vg_K, P0) < vg_K ? vg_out[(L0) + VG_WRITER((START) + vg_K, P0)] \
+                                          : VG_R0(((START) + vg_K) % RING_BUFFER_SIZE)))
 /* ring afterwards: the old ring overwritten by the output at the old write position */
-#define LZS_BLK_POST_RING    (vg_dec.ringbuf[vg_Y] == \
-    (VG_WRITER(vg_Y, VG_P0) < len ? vg_out[VG_L0 + VG_WRITER(vg_Y, VG_P0)] : VG_R0(vg_Y)))
+#define LZS_BLK_POST_RING_(LEN, L0, P0)  (vg_dec.ringbuf[vg_Y] == \
+    (VG_WRITER(vg_Y, P0) < (LEN) ? vg_out[(L0) + VG_WRITER(vg_Y, P0)] : VG_R0(vg_Y)))
+#define LZS_BLK_POST_BYTE    LZS_BLK_POST_BYTE_(start, len, VG_L0, VG_P0)
+#define LZS_BLK_POST_RING    LZS_BLK_POST_RING_(len, VG_L0, VG_P0)
 #define LZS_BLK_POST_EARLIER (vg_E < VG_L0 ==> vg_out[vg_E] == VG_O0(vg_E))
-#define LZS_BLK_POST_LOG     (vg_n == VG_N0 + 1 && vg_log[VG_N0].kind == VG_COPY && vg_log[VG_N0].a == start && vg_log[VG_N0].b == len)
 #endif
